@@ -1704,6 +1704,9 @@ func (pc *PartitionContext) AddRejectedApplication(rejectedApplication *objects.
 			zap.String("currentState", rejectedApplication.CurrentState()),
 			zap.Error(err))
 	}
+	// the rejected list is read under the partition lock (REST, expired application cleanup)
+	pc.Lock()
+	defer pc.Unlock()
 	if pc.rejectedApplications == nil {
 		pc.rejectedApplications = make(map[string]*objects.Application)
 	}
